@@ -591,14 +591,17 @@ type witness struct {
 // runHistory: clusters A (removed target: its first endpoint, or the whole cluster) and B (control).
 func runHistory(r *vkit.R, id int, g *vkit.Rand, longWait bool, hungProbe bool) {
 	nA, nB := g.Range(2, 3), g.Range(1, 2)
-	tlsA := g.Chance(0.3)
+	// sel: which histories get a shape is decided by the history's index, not by the seed: the shapes whose minimum counts
+	// are asserted are constructed in every run (the seed still varies everything else about them)
+	sel := func(salt int, num, den uint64) bool { return vkit.Hash64(fmt.Sprint(id), fmt.Sprint(salt))%den < num }
+	tlsA := sel(1, 3, 10)
 	h := newHist(r, id, nA, nB, tlsA)
 	defer h.close()
 	if tlsA {
 		r.Count("histories_with_tls_http2_upstreams", 1)
 	}
 	kind := "endpoint-remove"
-	if g.Bool() {
+	if sel(2, 1, 2) {
 		kind = "cluster-delete"
 	}
 	if hungProbe {
@@ -618,7 +621,7 @@ func runHistory(r *vkit.R, id int, g *vkit.Rand, longWait bool, hungProbe bool) 
 	h.clusterNames = []string{nameA, nameB}
 	// In a third of the histories the endpoints of cluster A that are NOT removed are written with a trailing slash
 	// (validation accepts "http://host:port/"): they are "the other endpoints of the same cluster" and must be unaffected.
-	if g.Chance(0.35) {
+	if sel(3, 35, 100) {
 		for i, s := range h.aStubs[1:] {
 			if i == 0 || g.Bool() {
 				h.slash[s] = true
@@ -631,7 +634,7 @@ func runHistory(r *vkit.R, id int, g *vkit.Rand, longWait bool, hungProbe bool) 
 	// pre-history of the endpoint that will be removed: it was disabled at some point (created disabled, or disabled
 	// later) and enabled again before anything else happens, i.e. its health checker was restarted by a spec update
 	pre := "none"
-	if !hungProbe && !forceRecreate && (longWait || g.Chance(0.45)) {
+	if !hungProbe && !forceRecreate && (longWait || sel(4, 45, 100)) {
 		pre = []string{"created-disabled-then-enabled", "disabled-then-enabled"}[g.Intn(2)]
 		if longWait {
 			// the histories that wait > 5 s for a ticker probe cover both removal kinds with this pre-history
@@ -642,7 +645,7 @@ func runHistory(r *vkit.R, id int, g *vkit.Rand, longWait bool, hungProbe bool) 
 	// (secureServing.serverNames; nothing validates that list): two aliases, possibly repeated, in other letter case, and
 	// the cluster's own name. Every name the cluster was reachable under must answer 503 after the deletion.
 	namesA := []string{nameA}
-	if kind == "cluster-delete" && !hungProbe && g.Chance(0.5) {
+	if kind == "cluster-delete" && !hungProbe && sel(5, 1, 2) {
 		a1, a2 := fmt.Sprintf("alias1-%d.c15.test", id), fmt.Sprintf("alias2-%d.c15.test", id)
 		pool := []string{a1, a2, a1, nameA, strings.ToUpper(nameA), strings.ToUpper(a2), a2}
 		perm := g.Perm(len(pool))
@@ -650,6 +653,8 @@ func runHistory(r *vkit.R, id int, g *vkit.Rand, longWait bool, hungProbe bool) 
 		for _, i := range perm[:g.Range(2, len(pool))] {
 			list = append(list, pool[i])
 		}
+		// at least one real alias, whatever was drawn
+		list = append(list[:1:1], append([]string{a1}, list[1:]...)...)
 		objA.Spec.SecureServing.ServerNames = list
 		seen := map[string]bool{nameA: true}
 		for _, n := range list {
@@ -683,7 +688,7 @@ func runHistory(r *vkit.R, id int, g *vkit.Rand, longWait bool, hungProbe bool) 
 	}
 	// An earlier incarnation of cluster A (same name, other uid) existed and was deleted before this history's cluster is
 	// created: nothing of it may survive (its endpoints' contexts are cancelled; the new one must be cut / probed on its own).
-	if !hungProbe && g.Chance(0.25) {
+	if !hungProbe && sel(6, 1, 4) {
 		first := objA.DeepCopy()
 		if g.Bool() && len(first.Spec.Servers) > 1 {
 			first.Spec.Servers = first.Spec.Servers[:1] // the earlier incarnation had only E1
@@ -850,7 +855,7 @@ func runHistory(r *vkit.R, id int, g *vkit.Rand, longWait bool, hungProbe bool) 
 	// the server list by a later update. The statement's demand is about the REMOVAL: whatever is still being proxied to
 	// the endpoint then must be cut.
 	retire := ""
-	if kind == "endpoint-remove" && !hungProbe && !forceRecreate && g.Chance(0.4) {
+	if kind == "endpoint-remove" && !hungProbe && !forceRecreate && sel(7, 4, 10) {
 		retire = "/disabled-before-removal"
 		if !func() bool {
 			if sr := h.applyObj(withE1Disabled()); sr.Err != nil || sr.Panic != nil || sr.Requeue {
@@ -888,7 +893,7 @@ func runHistory(r *vkit.R, id int, g *vkit.Rand, longWait bool, hungProbe bool) 
 	// one, E1 is not in its list: all clauses hold for E1 from the moment the first removing sync returned.
 	// `failing` is the variant suffix of the removing update
 	failing := ""
-	if kind == "endpoint-remove" && !hungProbe && !forceRecreate && g.Chance(0.35) {
+	if kind == "endpoint-remove" && !hungProbe && !forceRecreate && sel(8, 35, 100) {
 		failing = "/with-failing-add"
 	}
 	// Another shape of the removing event: the object was DELETED AND RE-CREATED under the same name with a different
@@ -910,7 +915,7 @@ func runHistory(r *vkit.R, id int, g *vkit.Rand, longWait bool, hungProbe bool) 
 	// ---- the removal ----
 	t0 := bed.Now()
 	var sr bed.SyncResult
-	if kind == "cluster-delete" && len(namesA) > 1 && g.Bool() {
+	if kind == "cluster-delete" && len(namesA) > 1 && sel(9, 1, 2) {
 		// The alias names were edited (one alias replaced by a new one) and the object was deleted BEFORE the controller's
 		// single worker handled the update event: the lister no longer has the object when that event is processed, so the
 		// edit is never applied and the names that are registered are not the names in the last object. Every name the
